@@ -23,21 +23,22 @@ EXPLANATION = (
     "validity of split files and prototypes.")
 
 
-def run(tier, only=None):
-    rep = common.Report("C16", tier, EXPLANATION)
-    f = common.extract("genc.c", all_cfg=True)
-    # ---- M1 ----
+def mangle_table_rows(f, varname):
     rows = []
-    for r in common.table_rows(f.var("ccSpecCharIdTable")):
+    for r in common.table_rows(f.var(varname)):
         ch = const_value(r["c"][0])
         s = string_value(r["c"][1]) if len(r["c"]) > 1 and r["c"][1] is not None else None
         if ch in (None, 0) and s is None:
             continue      # terminator
         rows.append((ch, s, r["l"]))
-    rep.floor("rows of ccSpecCharIdTable", len(rows), 25)
+    return rows
+
+
+def check_mangle_table(rep, rule, rows, unit, table):
+    """Injectivity and unique decodability of a special-character table."""
     seen_c, seen_s = {}, {}
     for ch, s, line in rows:
-        where = "genc.c:%d (ccSpecCharIdTable)" % line
+        where = "%s:%d (%s)" % (unit, line, table)
         key = "row:%s" % (repr(chr(ch)) if ch is not None and 0 < ch < 128 else ch)
         problems = []
         if ch is None or not (0 < ch < 128):
@@ -47,7 +48,7 @@ def run(tier, only=None):
         if ch in seen_c:
             problems.append("character listed twice (also at line %d)" % seen_c[ch])
         if s in seen_s:
-            problems.append("replacement %r is also used for %r (line %d): two different identifiers get the same C name" % (
+            problems.append("replacement %r is also used for %r (line %d): two different identifiers get the same name" % (
                 s, chr(seen_s[s][0]), seen_s[s][1]))
         if ch == ord("_"):
             if s != "__":
@@ -57,12 +58,21 @@ def run(tier, only=None):
         seen_c.setdefault(ch, line)
         seen_s.setdefault(s, (ch, line))
         if problems:
-            rep.violation("M1", key, where, "; ".join(problems))
+            rep.violation(rule, key, where, "; ".join(problems))
         else:
-            rep.ok("M1", key, sample={"char": chr(ch), "replacement": s} if len(rep.samples) < 3 else None)
+            rep.ok(rule, key, sample={"char": chr(ch), "replacement": s} if len(rep.samples) < 3 else None)
     if ord("_") not in seen_c:
-        rep.violation("M1", "row:'_'", "genc.c (ccSpecCharIdTable)", "'_' has no row: a literal underscore would be confused "
+        rep.violation(rule, "row:'_'", "%s (%s)" % (unit, table), "'_' has no row: a literal underscore would be confused "
                       "with the delimiters of the special names")
+
+
+def run(tier, only=None):
+    rep = common.Report("C16", tier, EXPLANATION)
+    f = common.extract("genc.c", all_cfg=True)
+    # ---- M1 ----
+    rows = mangle_table_rows(f, "ccSpecCharIdTable")
+    rep.floor("rows of ccSpecCharIdTable", len(rows), 25)
+    check_mangle_table(rep, "M1", rows, "genc.c", "ccSpecCharIdTable")
     # ---- M2 ----
     d = c07_total.k1_digest(f)
     n2 = 0
